@@ -95,7 +95,7 @@ def step (st : St) (line : String) : IO St := do
     IO.println s!"ORACLE C18 a grid written by writeToFile could not be loaded: {line.trimAscii}"
     return { st with oracleFails := st.oracleFails + 1 }
   | "BADFILE" :: what :: res :: _ =>
-    let shouldAccept := what == "good"
+    let shouldAccept := what == "good" ∨ what == "good-two-radii"
     let ok := (res == "accepted") == shouldAccept
     let mut st := st
     if !ok then
@@ -103,6 +103,7 @@ def step (st : St) (line : String) : IO St := do
       st := { st with oracleFails := st.oracleFails + 1 }
     let stats ← check st.stats true fun _ => ""
     return { st with stats := stats, badfiles := st.badfiles + 1 }
+  | "FILECASE" :: _ => return st
   | "Error" :: _ => return st     -- "Error opening file" on std::cerr/cout of loadVectorFromFile
   | "seed" :: _ => return st
   | "end" :: _ => return st
